@@ -12,6 +12,10 @@ c14_views       [text, ignore]  read_pil(text) vs read_pil(path, is_file=True) v
 reader_kept_consistent [text, ignore]  the same with ignore
 reader_session  [text1, text2]  read text1, hold the result, read text2: True when both reads return and every name of
                 the second result that the first result has too is the very same object
+read_pil_after_released [[earlier texts], text, ignore]  ONE session (one set_io_objects()): every earlier document is read
+                (failures ignored), its result dropped and one gc.collect() run; then read_pil(text, ignore) in the
+                canonical form of read_pil_model.  The model is asked read_pil_model [text, ignore]: once its objects are
+                released, nothing of an earlier document may be remembered (a name means what THIS document declares)
 reader_consistent [text]  True when set_io_objects(); read_pil(text) returns a dictionary (the model op of the
                 same name computes whether the statements form a consistent system, which by
                 C14_reader_builds implies that the document is read)"""
@@ -62,6 +66,28 @@ def register(op):
         objectio.set_io_objects()
         out = None
         try:
+            out = objectio.read_pil(text, ignore=ignore)
+            return canon(out)
+        finally:
+            out = None
+            fresh()
+
+    @op("read_pil_after_released")
+    def _(a):
+        earlier, text, ignore = a
+        fresh()
+        objectio.set_io_objects()
+        out = None
+        try:
+            for e in earlier:
+                try:
+                    out = objectio.read_pil(e)
+                except RecursionError:
+                    raise
+                except Exception:
+                    pass
+                out = None
+                gc.collect()        # a failed read leaves its frames in reference cycles of the parser's exceptions
             out = objectio.read_pil(text, ignore=ignore)
             return canon(out)
         finally:
